@@ -128,6 +128,24 @@ def handleSkip (args : List String) (impl : String) : String × String :=
       if t > 255 then ("bad-op", "na") else
       (skipModel im (UInt8.ofNat t) b src, skipVerdict im (UInt8.ofNat t) b src impl)
     | _, _, _ => ("bad-op", "na")
+  | ["skipseq2", t1, t2, hex] =>
+    -- two Next calls on ONE BytesSkipDecoder without Reset: a failed first call consumes nothing and
+    -- leaks nothing; a successful one leaves exactly the rest
+    match t1.toNat?, t2.toNat?, parseHex hex with
+    | some t1, some t2, some b =>
+      if t1 > 255 || t2 > 255 then ("bad-op", "na") else
+      let r1 := bytesDecNext ⟨b, 0⟩ (UInt8.ofNat t1)
+      let b2 : Bytes := match r1 with | .ok (_, s) => s.b | _ => b
+      let m1 := toutStr (fun (p : Bytes × BytesDec) => toHex p.1 ++ " " ++ toString p.2.b.length) r1
+      let m2 := skipModel "tplbytes" (UInt8.ofNat t2) b2 .none
+      let parts := impl.splitOn " | "
+      match parts with
+      | [i1, i2] =>
+        let v1 := skipVerdict "tplbytes" (UInt8.ofNat t1) b .none i1
+        let v2 := skipVerdict "tplbytes" (UInt8.ofNat t2) b2 .none i2
+        (m1 ++ " | " ++ m2, if v1 != "ok" then v1 else v2)
+      | _ => (m1 ++ " | " ++ m2, "bad:protocol")
+    | _, _, _ => ("bad-op", "na")
   | ["skipreuse", kind, _t1, _hex1, t2, hex2, src] =>
     -- a decoder object used before (possibly failing part-way), then reset / released and re-obtained:
     -- the second use must behave exactly like a fresh decoder on (t2, hex2)
